@@ -23,7 +23,8 @@ RULE = ("seeded sequence pairs (length 0-7, quick; up to 12 thorough) over alpha
         "uint8/16/32/64 and two different alphabets, int matrices in [-6,6] (any sign, asymmetric, match/mismatch, "
         "constant), linear gaps 0..-5 and affine (open, ext) incl. open<ext and zeros, global / semi-global / local, "
         "max_number 1..50.  align_optimal's score and every returned trace go through the Lean model (optimum from "
-        "the table model, verified checker on each trace, model of the trace count) and random valid alignments "
+        "the table model, verified checker on each trace, model of the trace count, for linear global/semi-global "
+        "membership of every real trace in the traceback model followLin) and random valid alignments "
         "are rescored by align.score() vs the model's scorePub.  Oracle: exhaustive enumeration of all alignments "
         "(small shapes) or an independent memoised recursion.  non-trivial = both sequences non-empty and the "
         "matrix is not constant; distinct = different (mode, gap, a, b, matrix, max_number)")
@@ -34,16 +35,22 @@ ASSUMPTIONS = ["NoOverflow: every table entry fits int32 (|matrix|,|gap| <= 6 an
                "the pseudo -inf of the affine tables is modelled as `none`"]
 TECHNIQUE = ("Lean 4 proof (induction over alignment columns against a two-dimensional recurrence; refinement of the "
              "row-by-row table to the recurrence) + verified checker run on every actual output + correspondence")
-LEVEL_TEXT = ("proof for linear gap penalties in all three modes (global, semi-global, local): upper bound, attainment, "
-              "table = recurrence, checker soundness, for every matrix and every g <= 0, no length bound; "
-              "PARTIAL for affine penalties and the traceback: the affine score model, validity and honest "
-              "scoring of every returned trace are checked per output by the verified checker, "
-              "while affine optimality (three-table recurrence = maximum over non-abutting alignments), trace "
-              "distinctness and the max_number bound of follow_trace are tied by the correspondence against the "
-              "executable model and by exhaustive enumeration (lengths <= 5) only")
-LEVEL_NOTE = ("trusted: Lean kernel, line-protocol driver, generators; int32 arithmetic modelled as Z under NoOverflow; "
-              "the semi-global theorems are stated for the positional form of terminal_penalty=False, which the "
-              "checker compares with the statement-by-statement model of align.score() on every output")
+LEVEL_TEXT = ("proof, for every matrix / sequence pair, no length bound (36 theorems): "
+              "LINEAR and AFFINE gap penalties in all three modes (global, semi-global, local): no valid alignment "
+              "(affine: without abutting gaps) has a public align.score() above the optimum and some valid alignment "
+              "attains it (C08_upper_pub_lin/_aff need gap <= 0 only for local; C08_attained_pub_lin/_aff), incl. open<ext "
+              "and zeros; align.score(terminal_penalty=False) = positional form on valid alignments "
+              "(C08_scorePub_semi[_aff]); the row-by-row tables equal the recurrences (C08_table_lin/_aff, prefix form "
+              "C08_table_lin_prefix/_aff_prefix) and the reported score is the optimum (C08_reported_lin/_aff); full "
+              "checker soundness for linear and affine (C08_checker_sound_lin/_aff), run on every actual output; "
+              "traceback model for linear penalties: every trace followLin yields is valid and scores the optimum "
+              "(C08_traces_valid, _valid_local), at most max_number per start (C08_traces_count), non-empty "
+              "(C08_traces_nonempty).  PARTIAL: pairwise distinctness of the model's traces is not a theorem (checked "
+              "per output by checkAll and by the oracle); the affine traceback (three-state follow_trace) has only the "
+              "executable count model nTraces; local-mode trace lists are tied by count + per-output checker")
+LEVEL_NOTE = ("trusted: Lean kernel, line-protocol driver, generators; int32 arithmetic modelled as Z under NoOverflow "
+              "(pseudo -inf of the affine tables = none); the traceback theorems are about followLin over Rec.val, the "
+              "driver runs followLin over a lookup into the table proved equal to Rec.val (C08_table_lin)")
 
 WIDTH_SIZE = {"u8": None, "u16": 300, "u32": 70000, "u64": None}
 BIG = 2**31 - 2
@@ -362,7 +369,7 @@ def run_impl(case):
         # the chk op carries the actual output: rewrite it (the runner reads case["ops"] after run_impl)
         case["ops"][1] = f"chk {c['mode']} {_head(c)} {c['max']} {sc if sc is not None else 0} {tr_s}"
         n = len(res)
-        out.append(f"ok n={n} valid={n} scored={n} sound={n} distinct=1 count=1")
+        out.append(f"ok n={n} valid={n} scored={n} sound={n} distinct=1 count=1 model=1")
     for r in c.get("rs", []):
         try:
             aln = align.Alignment([s1, s2], np.array(r["trace"], dtype=np.int64).reshape(-1, 2))
